@@ -41,6 +41,93 @@ class EvWalker(lib_core.CoreWalker):
                     st.events.append(('count-eq-wait', eq))
 
 
+def check_event_forms(ctx, fb, rule, ka, ke, cfg):
+    E = 'yaclib::OneShotEvent'
+    # (a) Set latches: the value Set() hands to the exchange is the sentinel TryAdd / Ready compare with
+    for f in fb.by_qn(E + '::Set'):
+        key = 'R-EVENTFORMS OneShotEvent::Set latches'
+        ctx.instance(rule, key + ' [%s]' % cfg, None)
+        consts = set()
+        for c in f.calls():
+            for a in c.get('args', []):
+                v = (f.sn(a) or {}).get('v')
+                if v is not None:
+                    consts.add(v)
+        if ka not in consts or (ke in consts and ke != ka):
+            ctx.report(rule, key, f.where, 'Set() does not leave the event in the all-done state (it stores %s, the '
+                       'sentinel TryAdd and Ready test is %s): a waiter that arrives after the count reached zero parks '
+                       'forever' % (sorted(consts), ka))
+    # (b) TryAdd links the new waiter in front of the observed head
+    for f in fb.by_qn(E + '::TryAdd'):
+        key = 'R-EVENTFORMS OneShotEvent::TryAdd links'
+        ctx.instance(rule, key + ' [%s]' % cfg, None)
+        cas = [c for c in f.calls() if c['cn'].split('::')[-1].startswith('compare_exchange')]
+        links = [n for n in f.own_nodes() if n['k'] == 'BinaryOperator' and n['op'] == '=' and
+                 (f.sn(n['ch'][0]) or {}).get('mn') == 'next']
+        ok = False
+        if cas and links:
+            exp = f.sn(cas[0]['args'][0])
+            for ln in links:
+                r = f.sn(ln['ch'][1])
+                while r is not None and r['k'] in ('CXXReinterpretCastExpr', 'CXXStaticCastExpr', 'CStyleCastExpr') \
+                        and r.get('ch'):
+                    r = f.sn(r['ch'][0])
+                if r is not None and exp is not None and r['k'] == 'DeclRefExpr' and r.get('id') == exp.get('id') and \
+                        f.cfg.pos_of(ln['i']) and f.cfg.pos_of(cas[0]['i']) and \
+                        f.cfg.dominates(f.cfg.pos_of(ln['i']), f.cfg.pos_of(cas[0]['i'])):
+                    # and it is redone after every refresh: the link lies on the retry cycle
+                    ok = f.cfg.pos_of(ln['i'])[0] in f.cfg.loops() or not f.cfg.loops()
+        if not ok:
+            ctx.report(rule, key, f.where, 'the waiter published by the CAS is not linked in front of the head the CAS '
+                       'expects (job.next = head before every attempt): the waiters registered earlier are cut off and '
+                       'never released')
+    # (c) the blocking Wait() blocks exactly when it was registered
+    for f in fb.by_qn(E + '::Wait'):
+        key = 'R-EVENTFORMS OneShotEvent::Wait'
+        res = EvWalker(fb).run(f)
+        ctx.instance(rule, key + ' [%s]' % cfg, dict(paths=len(res)))
+        for st, _ in res:
+            out = [e for e in st.events if e[0] == 'outcome' and e[1] == 'TryAdd']
+            waits = [e for e in st.events if e[0] == 'call' and e[1].split('::')[-1] == 'Wait' and e[1] != E + '::Wait']
+            if not out:
+                ctx.broken('OneShotEvent::Wait: registration not recognised')
+            if bool(waits) != bool(out[-1][2]):
+                ctx.report(rule, key, f.where, 'Wait() %s' % (
+                    'returns without blocking although its waiter was registered (the event is not set yet; the '
+                    'waiter object dies while it is in the list)' if out[-1][2] else
+                    'blocks on a waiter that was not registered (the event was already set): it is never woken'))
+                break
+    if cfg == 'K17':
+        return
+    # (d) an awaiter that always suspends resumes the coroutine itself when it could not register
+    for f in fb.fn.values():
+        if f.clsq.startswith(E + '::') and f.n == 'await_suspend' and f.cfg is not None and f.ret == 'void':
+            key = 'R-EVENTFORMS %s::await_suspend (always suspends)' % f.clsq.split('::')[-1]
+            res = EvWalker(fb).run(f)
+            ctx.instance(rule, key + ' [%s]' % cfg, dict(paths=len(res)))
+            for st, _ in res:
+                ev = st.events
+                out = [i for i, e in enumerate(ev) if e[0] == 'outcome' and e[1] == 'TryAdd']
+                if not out:
+                    ctx.report(rule, key, f.where, 'a path suspends the coroutine without trying to register it')
+                    break
+                if ev[out[-1]][2] is False and not any(
+                        e[0] == 'call' and e[1].split('::')[-1] in ('Call', 'Submit') for e in ev[out[-1]:]):
+                    ctx.report(rule, key, f.where, 'the coroutine is suspended, could not be registered (the event was '
+                               'already set) and nothing resumes it')
+                    break
+    # (e) the sticky / on-executor awaiters resume by submitting the coroutine to its executor
+    for f in fb.by_qn(E + '::ExtendedAwaiter::Call'):
+        key = 'R-EVENTFORMS ExtendedAwaiter::Call'
+        ctx.instance(rule, key + ' [%s]' % cfg, None)
+        names = [c['cn'] for c in f.calls()]
+        if 'yaclib::IExecutor::Submit' not in names or any(
+                n.split('::')[-1] in ('Call', 'resume', 'Resume') and n != f.qn for n in names):
+            ctx.report(rule, key, f.where, 'the awaiter does not hand the coroutine to its executor (calls: %s): the '
+                       'sticky / on-executor forms resume inside Set() on the thread that completed the group' % (
+                           [n.split('::')[-1] for n in names]))
+
+
 def run(ctx):
     fbs = ctx.facts(['K17', 'K20'], kinds=('probe', 'lib'), only=r'p_coro\.cpp$|p_async\.cpp$|src/algo|src/util', tests=r'/test/',
                     quick_tests=r'unit/algo/wait_group\.cpp|unit/coro/await_group\.cpp')
@@ -62,6 +149,10 @@ def run(ctx):
                    'analysis over list segments, all lengths)', minimum=1)
     rcf = ctx.rule('R-CASFRESH', 'every retry of a compare-exchange re-tests the refreshed expected value against the '
                    'sentinels the first attempt tested', minimum=0)
+    ref_ = ctx.rule('R-EVENTFORMS', 'Set() stores the all-done sentinel (later arrivals do not park); TryAdd links the '
+                    'new waiter in front of the observed head; Wait() blocks exactly when it was registered; an '
+                    'awaiter that always suspends resumes the coroutine itself when it could not register; the '
+                    'sticky / on-executor awaiters resume by submitting to the executor', minimum=3)
     for cfg, fb in sorted(fbs.items()):
         ctx.guard(lambda: lib_order.check_cas_fresh(ctx, fb, rcf, lambda f: 'OneShotEvent' in f.qn or 'one_shot_event' in f.file))
         ctx.guard(lambda: lib_shape.check(ctx, fb, rsh, lambda qn: 'SetImpl' in qn and 'BaseCore' not in qn, 1))
@@ -103,6 +194,8 @@ def run(ctx):
                     ctx.report(rt, key, f.where, 'TryAdd reports failure although it did not observe the all-done '
                                'state: a waiter skips waiting before the count reached zero')
                     break
+        # ---- the forms of the event (clauses that no other rule looks at)
+        ctx.guard(lambda: check_event_forms(ctx, fb, ref_, ka, ke, cfg))
         # ---- who sets the event
         callers = set()
         for f in fb.fn.values():
